@@ -7,7 +7,7 @@ set -u
 S=$1; N=$2
 WT=/tmp/confirm-$N
 DEMO_DIR=$(python3 -c "import json,sys;print(json.load(open('$S/meta.json')).get('demo_location','').strip('/').replace('$WT/',''))")
-DEMO_DIR=$(echo "$DEMO_DIR" | sed 's#^.*/wt-[A-Z0-9]*/##; s#^\./##; s#/[a-z_]*_test\.go$##; s#/$##' | awk '{print $1}')
+DEMO_DIR=$(echo "$DEMO_DIR" | awk "{print \$1}" | sed "s#^.*/wt-[A-Z0-9]*/##; s#^\./##; s#/[a-z_]*_test\.go.*\$##; s#[;,]\$##; s#/\$##")
 git -C /repo worktree add -q --detach $WT HEAD || exit 2
 trap 'git -C /repo worktree remove --force '$WT' >/dev/null 2>&1; rm -rf '$WT' /tmp/confirm-'$N'.log' EXIT
 DEMO=$(ls $S/*_test.go 2>/dev/null | head -1)
